@@ -6,6 +6,8 @@ import CifModel.Lemmas.WriterText
 import CifModel.Lemmas.DecodeMarker
 import CifModel.Lemmas.WriterChar
 import CifModel.Lemmas.WriterAnalysis
+import CifModel.Lemmas.WriterLexFits
+import CifModel.Props.C01
 /-
   Property C02 — everything `cif_write` emits re-parses to an equivalent CIF.
 
@@ -220,6 +222,225 @@ theorem C02_write_char_text (c : Ctx) (s : Str) (quoted : Bool)
     ∨ (writeChar c s quoted true = .error Gen.ErrCodes.CIF_DISALLOWED_CHAR ∧ c.isCif1 = true ∧ validate11 s = false) :=
   C02_char_text_roundtrip c s quoted hcr hdelim (C02_analysis_facts s _ _ _ hcr)
 
+/-! ### the value level, through the lexer (model of group gD) -/
+
+open Spec.Lexical in
+/-- **What `write_char` writes is an admissible presentation.**  For every context (CIF 2.0 or CIF 1.1 mode) whose column
+    is within the line, every well-formed string `s` of characters allowed in that dialect (in particular: no CR) and every
+    quoted flag: if `write_char` succeeds, its output is — behind an optional line break — an admissible presentation `p`
+    (whitespace-delimited, quoted, triple-quoted or text field) of the lexical grammar of a string `s'` that stands for
+    `s` (`s` itself, or a text-field body that `decode_text` maps to `s`); no line that ends inside the output is longer
+    than 2048 characters; a text field starts a line; the whitespace-delimited form is used only for unquoted values not
+    beginning with `;`. -/
+theorem C02_value_presented (c : Ctx) (s : Str) (q : Bool) (out : Str) (c' : Ctx)
+    (hok : okUnits (Lemmas.WriterLex.diaOf c) none s = true) (hcol : c.lastColumn ≤ LINE)
+    (h : writeChar c s q true = .ok (out, c')) :
+    Lemmas.WriterLex.Presented (Lemmas.WriterLex.diaOf c) c s q out := by
+  by_cases hd : (Model.analyze s (!q) (!c.isCif1) LINE).delimLength = 2
+  · -- the text field
+    have hcr := Lemmas.WriterLex.okUnits_noCR _ s hok
+    have hv : ¬(c.isCif1 = true ∧ validate11 s = false) := by
+      intro hv; rw [Lemmas.WriterChar.writeChar_invalid c s q true hv] at h; cases h
+    have hr : ¬((true : Bool) = false ∨ ((Model.analyze s (!q) (!c.isCif1) LINE).containsTextDelim = true ∧ c.isCif1 = true)) := by
+      intro hr
+      rw [Lemmas.WriterChar.writeChar_delim2_refused c s q true hv hd hr] at h; cases h
+    rw [Lemmas.WriterChar.writeChar_delim2 c s q true hv hd hr] at h
+    have hA := C02_analysis_facts s (!q) (!c.isCif1) LINE hcr
+    have hst := C18_stats_exact s (!q) (!c.isCif1) LINE
+    generalize ha : Model.analyze s (!q) (!c.isCif1) LINE = a at *
+    have hflags := C02_flags_semis s a hA.semis
+    unfold writeText at h
+    split at h
+    · cases h
+    · rename_i body hb
+      simp only [Except.ok.injEq, Prod.mk.injEq] at h
+      -- what the flags imply when they are off
+      have hfold_off : (Lemmas.WriterChar.charFlags a).1 = false →
+          a.lengthFirst < LINE ∧ a.lengthMax ≤ LINE ∧ a.hasReservedStart = false ∧
+          ((Lemmas.WriterChar.charFlags a).2 = true → a.lengthMax + PREFIX_LENGTH ≤ LINE) := by
+        intro hf
+        unfold Lemmas.WriterChar.charFlags at hf ⊢
+        simp only at hf ⊢
+        split at hf
+        · cases hf
+        · rename_i hnp
+          simp only [Bool.or_eq_false_iff, decide_eq_false_iff_not, Nat.not_le, Nat.not_lt] at hf
+          refine ⟨hf.1.1.1, hf.1.1.2, hf.1.2, ?_⟩
+          intro hp
+          simp only [hp, true_and, Nat.not_lt] at hnp
+          exact hnp
+      have hpre_off : (Lemmas.WriterChar.charFlags a).2 = false → a.containsTextDelim = false := by
+        intro hp
+        unfold Lemmas.WriterChar.charFlags at hp
+        simp only [Bool.or_eq_false_iff] at hp
+        exact hp.1
+      have hlines : ∀ l ∈ splitLines s, l.length ≤ a.lengthMax := by
+        intro l hl
+        rw [hst.2.2.2.2.1, Lemmas.WriterLexFits.splitLines_eq s hcr]
+        exact Lemmas.WriterLex.le_maxLen _ _ hl
+      have hfirst : ((splitLines s).headD []).length = a.lengthFirst := by
+        rw [hst.2.2.1, Lemmas.WriterLexFits.splitLines_eq s hcr]
+      refine ⟨true, .text, body, ?_, ?_, fun _ => rfl, ?_, ?_, ?_, ?_⟩
+      · rw [← h.1]; simp [Lemmas.WriterLex.wrapLf, renderValue, TEXT_CLOSE]
+      · -- admissible
+        simp only [admissible, textOk, Bool.and_eq_true]
+        refine ⟨Lemmas.WriterLexUnits.body_units _ s _ _ body hok hb, ?_⟩
+        apply Lemmas.WriterLexText.body_textBody s _ _ body hcr hb
+        rcases hflags with hh | hh | hh
+        · right; right
+          refine ⟨hh.1, hh.2, ?_⟩
+          apply Lemmas.WriterLexText.textBody_of_lines s false hcr
+          · rw [← hst.2.2.2.2.2.2.1]; exact hpre_off hh.2
+          · intro e; cases e
+        · left; exact hh
+        · right; left; exact hh
+      · -- no over-long line
+        intro col hc
+        rw [← h.1]
+        have := Lemmas.WriterLexFits.text_out_fits s _ _ body hcr hb hflags ?_ col (by omega)
+        · simpa [renderValue, TEXT_CLOSE] using this
+        · by_cases hf : (Lemmas.WriterChar.charFlags a).1 = true
+          · left; exact hf
+          · right
+            have hoff := hfold_off (by simpa using hf)
+            constructor
+            · intro l hl
+              have := hlines l hl
+              cases hp : (Lemmas.WriterChar.charFlags a).2
+              · simp [Lemmas.WriterLexFits.pfxLen]; omega
+              · have := hoff.2.2.2 hp
+                simp [Lemmas.WriterLexFits.pfxLen, PREFIX_LENGTH] at *; omega
+            · rw [hfirst]; omega
+      · intro hne; exact absurd rfl hne
+      · intro _
+        apply C02_text_protocol s _ _ body hcr ?_ hb
+        by_cases hf : (Lemmas.WriterChar.charFlags a).1 = true
+        · left; exact hf
+        · by_cases hp : (Lemmas.WriterChar.charFlags a).2 = true
+          · right; left; exact hp
+          · right; right
+            exact hA.reserved hd (hfold_off (by simpa using hf)).2.2.1
+      · intro e; cases e
+  · exact Lemmas.WriterLex.writeChar_presented_nontext c s q out c' hok hcol hd h
+
+open Spec.Lexical Model.Lexer in
+/-- **C02_value_roundtrip.**  What `write_char` writes is read back by the lexer (next_token of parser.c, model of group
+    gD) as ONE value token — for every write context (CIF 2.0 or CIF 1.1 mode), every well-formed string `s` of characters
+    allowed in that dialect, every quoted flag, every start column, behind any admissible whitespace `w0`, followed by
+    whitespace, the end of input or (CIF 2.0) a closing bracket, from any scanner state, whatever the error-callback policy:
+    * nothing is reported (the log is unchanged) and exactly the value is consumed;
+    * the token is VALUE, QVALUE or TVALUE according to the presentation; for QVALUE / VALUE its text is `s`; for TVALUE its
+      text is a body that `decode_text` (unfolding and prefix removal enabled) maps to `s`;
+    * a whitespace-delimited token (which the parser turns into an unquoted string) occurs only for an unquoted value —
+      so a quoted value never comes back unquoted.
+    (`hcolw`: the writer's column is at least the true column, which holds because it counts code units.) -/
+theorem C02_value_roundtrip (c : Ctx) (s : Str) (q : Bool) (out : Str) (c' : Ctx)
+    (hok : okUnits (Lemmas.WriterLex.diaOf c) none s = true) (hcol : c.lastColumn ≤ LINE)
+    (h : writeChar c s q true = .ok (out, c'))
+    (w0 : List WsAtom) (ctx : Str) (line col : Nat) (lt : TokType) (pol : Policy) (log : List Report)
+    (hw0 : ∀ a ∈ w0, a.ok (Lemmas.WriterLex.diaOf c) = true)
+    (hfirst : afterWsOf lt = true ∨ ∀ b rest, w0 ≠ WsAtom.comment b :: rest)
+    (hws : (afterWsOf lt || !w0.isEmpty) = true)
+    (hfitw : linesFit col (renderWs w0) = true)
+    (hcolw : (posAfter line col (renderWs w0)).2 ≤ c.lastColumn)
+    (hctx : followOk (Lemmas.WriterLex.diaOf c) ctx = true) :
+    ∃ (p : Presentation) (s' : Str) (L C : Nat),
+      nextToken (Lemmas.WriterLex.diaOf c) ⟨renderWs w0 ++ (out ++ ctx), line, col, lt⟩ pol log
+        = .ok (⟨p.tokType, s', L, C⟩, ⟨ctx, L, C, p.tokType⟩) log
+      ∧ (p ≠ .text → s' = s) ∧ (p = .text → decodeText true true s' = s)
+      ∧ (p = .bare → q = false ∧ s.head? ≠ some 59) := by
+  obtain ⟨wrap, p, s', hout, hadm, htext, hfits, hs1, hs2, hbare⟩ := C02_value_presented c s q out c' hok hcol h
+  -- the optional line break is one more whitespace atom
+  let wl : List WsAtom := if wrap then [WsAtom.eol] else []
+  have hwl : renderWs wl = Lemmas.WriterLex.wrapLf wrap := by cases wrap <;> rfl
+  have hrender : renderWs (w0 ++ wl) = renderWs w0 ++ Lemmas.WriterLex.wrapLf wrap := by
+    simp [renderWs, ← hwl]
+  have hin : renderWs w0 ++ (out ++ ctx) = renderWs (w0 ++ wl) ++ (renderValue p s' ++ ctx) := by
+    rw [hrender, hout]; simp
+  -- no over-long line in the whitespace and in the value
+  have hf := hfits _ hcolw
+  rw [hout, linesFit_append] at hf
+  simp only [Bool.and_eq_true] at hf
+  have hfitw' : linesFit col (renderWs (w0 ++ wl)) = true := by
+    rw [hrender, linesFit_append, hfitw, Bool.true_and]
+    rw [posAfter_col_indep (renderWs w0) 0 line col]
+    exact hf.1
+  have hcolEq : (posAfter line col (renderWs (w0 ++ wl))).2
+      = (posAfter 0 (posAfter line col (renderWs w0)).2 (Lemmas.WriterLex.wrapLf wrap)).2 := by
+    rw [hrender, posAfter_append]
+    exact posAfter_col_indep _ _ _ _
+  have hfitv : linesFit (posAfter line col (renderWs (w0 ++ wl))).2 (renderValue p s') = true := by
+    rw [hcolEq]; exact hf.2
+  have hstart : startOk p s' (posAfter line col (renderWs (w0 ++ wl))).2 = true := by
+    cases p with
+    | text =>
+      have := htext rfl
+      subst this
+      rw [hcolEq]
+      simp [startOk, Lemmas.WriterLex.wrapLf, posAfter]
+    | bare =>
+      have e := hs1 (by intro e; cases e)
+      subst e
+      have := (hbare rfl).2
+      simp only [startOk, semiOk, Bool.not_eq_true', Bool.and_eq_false_iff, beq_eq_false_iff_ne, ne_eq]
+      left; exact this
+    | squote => rfl
+    | dquote => rfl
+    | tsquote => rfl
+    | tdquote => rfl
+  have hatoms : ∀ a ∈ w0 ++ wl, a.ok (Lemmas.WriterLex.diaOf c) = true := by
+    intro a ha
+    rcases List.mem_append.mp ha with h1 | h1
+    · exact hw0 a h1
+    · cases wrap <;> simp [wl] at h1
+      subst h1; rfl
+  have hfirst' : afterWsOf lt = true ∨ ∀ b rest, w0 ++ wl ≠ WsAtom.comment b :: rest := by
+    rcases hfirst with h1 | h1
+    · left; exact h1
+    · right
+      intro b rest
+      cases w0 with
+      | nil => cases wrap <;> simp [wl]
+      | cons a r =>
+        intro e
+        simp only [List.cons_append, List.cons.injEq] at e
+        exact h1 b r (by rw [e.1])
+  have hws' : (afterWsOf lt || !(w0 ++ wl).isEmpty) = true := by
+    cases hlt : afterWsOf lt
+    · simp only [hlt, Bool.false_or, Bool.not_eq_true', List.isEmpty_eq_false_iff] at hws ⊢
+      intro e
+      exact hws (List.append_eq_nil_iff.mp e).1
+    · rfl
+  refine ⟨p, s', (posAfter line col (renderWs (w0 ++ wl) ++ renderValue p s')).1,
+    (posAfter line col (renderWs (w0 ++ wl) ++ renderValue p s')).2, ?_, hs1, hs2, hbare⟩
+  rw [hin]
+  exact C01_lex_value_after_ws (Lemmas.WriterLex.diaOf c) (w0 ++ wl) p s' ctx line col lt pol log hatoms hfirst' hws' hfitw'
+    hadm hfitv hstart hctx
+
+/-- **An unquoted value stays unquoted** (the other half of the quoted-status relation): a one-line unquoted string that the
+    CIF 2.0 rules admit in whitespace-delimited form at any position (`unquotedOk`: what `cif_value_set_quoted` accepts, and
+    not beginning with `;`) and that fits a line is written bare — `write_char` emits exactly its units, behind a line
+    break if it does not fit on the current line — hence (`C02_value_roundtrip`) read back as a VALUE token.  The two
+    exceptions of property C02 are exactly the hypotheses: a first character `;`, and (open finding) a line > 2048. -/
+theorem C02_unquoted_stays_unquoted (c : Ctx) (s : Str) (out : Str) (c' : Ctx)
+    (hv : ¬(c.isCif1 = true ∧ validate11 s = false))
+    (hu : Model.unquotedOk s true = true) (h1 : (Model.counters s).numLines = 1) (hm : (Model.counters s).maxLine ≤ LINE)
+    (h : writeChar c s false true = .ok (out, c')) :
+    out = Lemmas.WriterLex.wrapLf (decide (s.length + c.lastColumn > LINE)) ++ s := by
+  have hrec : Model.recommend s (!false) (!c.isCif1) LINE = .none := by
+    simp [Model.recommend, Model.chooseDelim, hm, h1, hu]
+  have hd0 : (Model.analyze s (!false) (!c.isCif1) LINE).delimLength = 0 := by
+    rw [(Lemmas.WriterChar.analyze_delim s _ _ _).2, hrec]; rfl
+  rw [Lemmas.WriterChar.writeChar_delim0 c s false true hv hd0] at h
+  obtain ⟨_, hmax, _⟩ := Lemmas.WriterLex.one_line s (!false) (!c.isCif1) LINE h1
+  rw [hmax] at h
+  have hne : s ≠ [] := by
+    intro e; subst e; simp [Model.unquotedOk] at hu
+  obtain ⟨c'', hout⟩ := Lemmas.WriterLex.writeUnquoted_out c s hne
+  rw [hout] at h
+  simp only [Except.ok.injEq, Prod.mk.injEq] at h
+  exact h.1.symm
+
 /-! ### statements that need the lexer / parser model (group gD) or the whole-document invariant: kept as `_full`
      propositions; what is proved of them is named below each -/
 
@@ -233,8 +454,8 @@ def C02_sepStart (sep : Str) : Prop := sep = [] ∨ sep.head? = some 32 ∨ sep.
 /-- FULL: every CIF 2.0 string value written by `write_char` is read back by the lexer (`nextValue` of
     Model/Lexer.lean, group gD) with the same text and — up to `C02_quotedRel` — the same quoted status.  The hypothesis
     `q = true ∨ s.length ≤ LINE` excludes the one open finding (an unquoted value whose single line exceeds the limit).
-    PROVED OF IT: the text-field case down to `decode_text` (`C02_char_text_roundtrip`, `C02_text_protocol`); the
-    admissibility of the other presentations for the lexer is `C18_delim_admissible` (group gA). -/
+    SUPERSEDED by the theorem `C02_value_roundtrip` (stated against the lexer model `Model.Lexer.nextToken` of group gD)
+    together with `C02_unquoted_stays_unquoted`; kept for reference. -/
 def C02_value_roundtrip_full (nextValue : Dialect → Str → Option (V × Str)) : Prop :=
   ∀ (c : Ctx) (s : Str) (q : Bool) (out : Str) (c' : Ctx) (sep : Str),
     c.isCif1 = false → (13 : CU) ∉ s → (0 : CU) ∉ s → (q = true ∨ s.length ≤ LINE) → C02_sepStart sep →
